@@ -1,8 +1,8 @@
 SPECIFICATION Spec
 CONSTANTS
-  MaxLen = 4
+  MaxLen = 5
   Srcs = {1, 2}
-  CfgSet <- AllCfgs
+  CfgSet <- C16Cfgs
   FLen = 8
   PgnLists <- AllLists
 INVARIANT Selection
